@@ -852,6 +852,7 @@ interp!(run_drh, DrH, DrHVec, DrHSlice, DrHSliceMut, DrHRef, DrHRefMut, DrHPtr, 
 interp!(run_plc, PlC, PlCVec, PlCSlice, PlCSliceMut, PlCRef, PlCRefMut, PlCPtr, PlCPtrMut, PlCIter, PlCIterMut, yes);
 interp!(run_drp, DrP, DrPVec, DrPSlice, DrPSliceMut, DrPRef, DrPRefMut, DrPPtr, DrPPtrMut, DrPIter, DrPIterMut, yes);
 interp!(run_drn, DrN, DrNVec, DrNSlice, DrNSliceMut, DrNRef, DrNRefMut, DrNPtr, DrNPtrMut, DrNIter, DrNIterMut, yes);
+interp!(run_drnn, DrNN, DrNNVec, DrNNSlice, DrNNSliceMut, DrNNRef, DrNNRefMut, DrNNPtr, DrNNPtrMut, DrNNIter, DrNNIterMut, yes);
 interp!(run_nfirst, NFirst, NFirstVec, NFirstSlice, NFirstSliceMut, NFirstRef, NFirstRefMut, NFirstPtr, NFirstPtrMut, NFirstIter, NFirstIterMut, yes);
 interp!(run_nfirstf, NFirstF, NFirstFVec, NFirstFSlice, NFirstFSliceMut, NFirstFRef, NFirstFRefMut, NFirstFPtr, NFirstFPtrMut, NFirstFIter, NFirstFIterMut, yes);
 interp!(run_nmid, NMid, NMidVec, NMidSlice, NMidSliceMut, NMidRef, NMidRefMut, NMidPtr, NMidPtrMut, NMidIter, NMidIterMut, yes);
@@ -862,19 +863,20 @@ interp!(run_deep, Deep, DeepVec, DeepSlice, DeepSliceMut, DeepRef, DeepRefMut, D
 interp!(run_deepf, DeepF, DeepFVec, DeepFSlice, DeepFSliceMut, DeepFRef, DeepFRefMut, DeepFPtr, DeepFPtrMut, DeepFIter, DeepFIterMut, yes);
 
 pub fn shape_desc(name: &str) -> Option<String> {
-    fn d<T: Shape>() -> String { let mut s = String::new(); T::desc(&mut s); format!("{} drops={} {}", T::NAME, T::DROPS as u8, s.trim()) }
+    // `drops=1:<leaves>`: the leaf indices (declaration order) that name the destructor of a NESTED struct implementing `Drop`
+    fn d<T: Shape>() -> String { let mut s = String::new(); T::desc(&mut s); format!("{} drops={}{} {}", T::NAME, T::DROPS as u8, if T::NAME == "DrNN" { ":1" } else { "" }, s.trim()) }
     Some(match name {
         "One" => d::<One>(), "Two" => d::<Two>(), "Flat4" => d::<Flat4>(), "Heap" => d::<Heap>(),
-        "DrH" => d::<DrH>(), "DrN" => d::<DrN>(), "DrP" => d::<DrP>(), "PlC" => d::<PlC>(), "NFirst" => d::<NFirst>(), "NFirstF" => d::<NFirstF>(),
+        "DrH" => d::<DrH>(), "DrN" => d::<DrN>(), "DrNN" => d::<DrNN>(), "DrP" => d::<DrP>(), "PlC" => d::<PlC>(), "NFirst" => d::<NFirst>(), "NFirstF" => d::<NFirstF>(),
         "NMid" => d::<NMid>(), "NMidF" => d::<NMidF>(), "NLast" => d::<NLast>(), "NLastF" => d::<NLastF>(),
         "Deep" => d::<Deep>(), "DeepF" => d::<DeepF>(), _ => return None })
 }
-pub const SHAPES: &[&str] = &["One", "Two", "Flat4", "Heap", "DrH", "DrN", "DrP", "PlC", "NFirst", "NFirstF", "NMid", "NMidF", "NLast", "NLastF", "Deep", "DeepF"];
+pub const SHAPES: &[&str] = &["One", "Two", "Flat4", "Heap", "DrH", "DrN", "DrNN", "DrP", "PlC", "NFirst", "NFirstF", "NMid", "NMidF", "NLast", "NLastF", "Deep", "DeepF"];
 
 pub fn run_shape(name: &str, lines: &[&str], out: &mut String) -> bool {
     match name {
         "One" => run_one(lines, out), "Two" => run_two(lines, out), "Flat4" => run_flat4(lines, out), "Heap" => run_heap(lines, out),
-        "DrH" => run_drh(lines, out), "DrN" => run_drn(lines, out), "DrP" => run_drp(lines, out), "PlC" => run_plc(lines, out), "NFirst" => run_nfirst(lines, out), "NFirstF" => run_nfirstf(lines, out),
+        "DrH" => run_drh(lines, out), "DrN" => run_drn(lines, out), "DrNN" => run_drnn(lines, out), "DrP" => run_drp(lines, out), "PlC" => run_plc(lines, out), "NFirst" => run_nfirst(lines, out), "NFirstF" => run_nfirstf(lines, out),
         "NMid" => run_nmid(lines, out), "NMidF" => run_nmidf(lines, out), "NLast" => run_nlast(lines, out), "NLastF" => run_nlastf(lines, out),
         "Deep" => run_deep(lines, out), "DeepF" => run_deepf(lines, out), _ => return false }
     true
